@@ -3,6 +3,7 @@ package main
 // Evaluation of contract expressions against a symbolic state.
 
 import (
+	"sort"
 	"os"
 	"fmt"
 	"go/ast"
@@ -970,6 +971,31 @@ func (e *Engine) evalCall(c *evalCtx, n *ECall) Val {
 			a := e.eval(c, n.Args[0])
 			b := e.eval(c, n.Args[1])
 			return boolVal(And(Eq(a.sLen(), b.sLen()), Or(Eq(a.sLen(), BVConst(0, 64)), And(Eq(a.sRef(), b.sRef()), Eq(a.sOff(), b.sOff())))))
+		case "visited":
+			// visited(m, k): key k has been produced by the (most recent) range loop over map m
+			m := e.eval(c, n.Args[0])
+			k := e.eval(c, n.Args[1])
+			kt := m.T.Underlying().(*types.Map).Key()
+			k.T = kt
+			var it *Term
+			var names []string
+			for gk := range c.st.ghost {
+				if strings.HasPrefix(gk, "$iter/") {
+					names = append(names, gk)
+				}
+			}
+			sort.Strings(names)
+			for _, gk := range names {
+				if b := c.st.ghost[gk]; len(b.L) > 0 && b.L[0] == m.t() {
+					it = st2term(gk)
+				}
+			}
+			if it == nil {
+				return boolVal(False)
+			}
+			idx := mapIdx(m.t(), e.keyLeaves(c.st, k))
+			vidx := append([]*Term{it}, idx[1:]...)
+			return boolVal(c.st.loadLeaf(fmt.Sprintf("iter|visited/%d", len(vidx)), vidx, BoolSort))
 		case "smhas", "smget":
 			return e.evalSyncMapBuiltin(c, id.Name, n.Args)
 		case "closed":
@@ -1304,6 +1330,16 @@ func embeddedPath(T types.Type, name string) []string {
 		if sub := embeddedPath(FT, name); sub != nil {
 			return append([]string{f.Name()}, sub...)
 		}
+	}
+	return nil
+}
+
+// st2term: the iterator reference encoded in a "$iter/<term>" ghost key (a concrete fresh reference).
+func st2term(gk string) *Term {
+	var v uint64
+	name := strings.TrimPrefix(gk, "$iter/")
+	if _, err := fmt.Sscanf(name, "#x%x", &v); err == nil {
+		return BVConst(v, 64)
 	}
 	return nil
 }
